@@ -78,6 +78,23 @@ class C07(Prop):
             if rng.chance(1, 2):
                 s += rng.choice("eE") + rng.choice(["", "+", "-"]) + dstr(rng.range(1, 3))
             out.append(Case("num " + C.hexs(s), "random-wellformed", s))
+        # every LENGTH of integer part and of fraction up to 330 digits (19/20 digits = u64, 38/39 =
+        # u128, 255/256, …), and every exponent from -720 to 720, also where the exponent meets the
+        # number of fraction digits (f - 1, f, f + 1: the point where the value becomes an integer)
+        step = 1 if tier != "quick" else 3
+        for L in sorted(set(list(range(0, 331, step)) + [18, 19, 20, 21, 37, 38, 39, 40, 63, 64, 65, 127, 128, 129, 255, 256, 257])):
+            d = "".join(str((7 * i + 3) % 10) for i in range(L))
+            for s in ((d or "0") + ".5", "0." + d + "7", "9" + d, "-" + (d or "0") + "." + d + "1", "1" + "0" * L, "0." + "0" * L + "1"):
+                out.append(Case("num " + C.hexs(s), "length-sweep", s[:24] + f"… ({L})"))
+            for f_ in (0, 1, 5):
+                for e_ in (L - 1, L, L + 1, -L):
+                    s = "3." + "1" * (L if f_ == 0 else f_) + "e" + str(e_ if f_ == 0 else e_)
+                    out.append(Case("num " + C.hexs(s), "exponent-meets-fraction", s[:24] + f"… (e{e_})"))
+        for e_ in sorted(set(list(range(-720, 721, step * 2 + 1)) + [-309, -308, 308, 309, -324, 38, 39, 255, 256, 257, -255, -256])):
+            for m_ in ("1", "2.5", "-7.25", "0.001"):
+                for es in (str(e_), ("+" if e_ >= 0 else "-") + "00" + str(abs(e_))):
+                    s = m_ + rng.choice("eE") + es
+                    out.append(Case("num " + C.hexs(s), "exponent-sweep", s))
         # u32 guard region of the exponent
         for s in ["1e4294967295x", "1e4294967296", "1e4294967295", "1e-4294967296", "1e00004294967296", "2e99999999999"]:
             if not s.endswith("x"):
